@@ -81,6 +81,51 @@ const EXTRA: &[&str] = &[
     "http://example.com/cap?a=1&b=2",
 ];
 
+/// session-id text: the fixed forms, or a number around the 32- and 64-bit boundaries (a value
+/// that wraps to a small non-zero number when truncated is as invalid as any other above 2^32-1)
+fn gen_sid(r: &mut Prng) -> String {
+    match r.below(4) {
+        0 | 1 => (*r.pick(SIDS)).to_string(),
+        2 => {
+            let base: u128 = *r.pick(&[1u128 << 31, (1 << 32) - 1, 1 << 32, 1 << 33, 3 << 32, 1 << 40, 1 << 63, (1 << 64) - 1, 1 << 64, 5 << 64]);
+            let off = r.below(2000) as u128;
+            let n = if r.chance(1, 2) { base + off } else { base.saturating_sub(off) };
+            n.to_string()
+        }
+        _ => {
+            let len = r.range(1, 24);
+            let mut t = String::new();
+            for _ in 0..len {
+                t.push((b'0' + r.below(10) as u8) as char);
+            }
+            t
+        }
+    }
+}
+
+/// signature class of a session-id text
+fn sid_class_of(t: &str) -> &'static str {
+    let digits = t.strip_prefix('+').unwrap_or(t);
+    if t.is_empty() {
+        "empty"
+    } else if digits.is_empty() || !digits.bytes().all(|b| b.is_ascii_digit()) {
+        if t.starts_with('-') { "negative" } else { "not-a-number" }
+    } else {
+        let stripped = digits.trim_start_matches('0');
+        let n: Option<u128> = if stripped.is_empty() { Some(0) } else if stripped.len() > 30 { None } else { stripped.parse().ok() };
+        match n {
+            Some(0) => "zero",
+            Some(n) if n <= u128::from(u32::MAX) => {
+                if t.starts_with('+') { "in-range-with-plus-sign" } else if digits.starts_with('0') { "in-range-with-leading-zeros" } else { "in-range" }
+            }
+            Some(n) if n <= u128::from(u64::MAX) => {
+                if n % (1u128 << 32) == 0 { "above-32-bits:multiple-of-2^32" } else { "above-32-bits" }
+            }
+            _ => "above-64-bits",
+        }
+    }
+}
+
 fn gen_spec(r: &mut Prng) -> HelloSpec {
     let mut caps = Vec::new();
     match r.below(4) {
@@ -100,8 +145,8 @@ fn gen_spec(r: &mut Prng) -> HelloSpec {
     r.shuffle(&mut caps);
     let session_ids = match r.below(10) {
         0 => vec![],
-        1 => vec![(*r.pick(SIDS)).to_string(), (*r.pick(SIDS)).to_string()],
-        _ => vec![(*r.pick(SIDS)).to_string()],
+        1 => vec![gen_sid(r), gen_sid(r)],
+        _ => vec![gen_sid(r)],
     };
     HelloSpec { caps, session_ids, prefixed: r.chance(1, 3), wrong_ns: r.chance(1, 12), sid_first: r.chance(1, 4) }
 }
@@ -141,7 +186,7 @@ pub fn run(cfg: &Cfg) -> i32 {
         // and C: server hello delivered only after the client's hello went out
         let plan = Plan {
             first: vec![], late: 0, block_sends: vec![0], block_after_write: vec![], yield_between: false, hello_preloaded: false,
-            extra: vec![], drops: 0, hello: hello.clone(),
+            extra: vec![], drops: 0, hello: hello.clone(), reply_pad: vec![],
         };
         // actions offered at the choice point: Poll / DeliverHello / Release in this order; choose
         // DeliverHello first (B), or Release first (C)
@@ -183,8 +228,9 @@ pub fn run(cfg: &Cfg) -> i32 {
         let sid_class = match spec.session_ids.len() {
             0 => "missing".to_string(),
             2 => "duplicated".to_string(),
-            _ => format!("'{}'", spec.session_ids[0]),
+            _ => sid_class_of(&spec.session_ids[0]).to_string(),
         };
+        rep.count(&format!("session-id-class:{sid_class}"));
         if a_ok != expect {
             let why = if spec.wrong_ns { "wrong-namespace".to_string() } else if sid.is_none() { format!("session-id-{sid_class}") } else if common.is_empty() { "no-common-version".into() } else { format!("valid-hello(session-id {sid_class})") };
             rep.violation(
